@@ -46,6 +46,8 @@ class Case:
         self.outpoints = []           # (txid, idx) ever created, for lookups
         self.direct_fail = []
         self.spec_points = 0
+        self.undo_mem = {}            # height -> block id: undo kept in memory, not yet UTXO-flushed
+        self.undo_disk = {}           # height -> id of the block whose U row is on disk
 
     # -- plumbing
     def emit(self, line, expect, kind):
@@ -71,6 +73,10 @@ class Case:
         self.emit(f'OPEN {1 if keep else 0}', r, 'open')
         if not keep:
             h = self.real.db.state.height
+            # blocks above the stored height are gone; their undo rows were never written
+            self.undo_mem.clear()
+            for k in [k for k in self.undo_disk if k < h - self.lim + 1]:
+                del self.undo_disk[k]                         # clear_excess_undo_info
             self.chain = self.chain[:h + 1]
         self.dumps()
         return r
@@ -81,12 +87,18 @@ class Case:
         self.emit(f'ADV {b.id} {daemon_h}', r, 'adv')
         if r == 'ok':
             self.chain.append(b)
+            h = len(self.chain) - 1
+            if h >= daemon_h - self.lim + 1:
+                self.undo_mem[h] = b.id
         self.res.bump('db_spends_with_2plus_candidates', self.real.last_multi_candidate_spends)
         self.dumps()
         return r
 
     def flush(self, utxos):
         r = self.real.flush(utxos)
+        if utxos and r == 'ok':
+            self.undo_disk.update(self.undo_mem)
+            self.undo_mem.clear()
         self.emit(f'FLUSH {1 if utxos else 0}', r, 'flush')
         self.dumps()
         return r
@@ -96,6 +108,7 @@ class Case:
         r = self.real.backup(b)
         self.emit(f'BACKUP {b.id}', r, 'backup')
         if r == 'ok':
+            # backup_block leaves the U row of the orphaned block behind (undo_disk unchanged)
             self.chain.pop()
             self.dumps()
         # after an exception the real object is half-updated and the processing task is dead:
@@ -195,6 +208,12 @@ def run_case(res, rng, tier, groups, label):
                 res.bump('reorgs')
                 ok = True
                 for _ in range(depth):
+                    top = len(c.chain) - 1
+                    if top in c.undo_disk and c.undo_disk[top] != c.chain[top].id:
+                        # the block was indexed outside its undo window on top of an orphan's
+                        # undo row (DESIGN N2): backing it out is outside C03/C15; not generated
+                        res.bump('backouts_skipped_stale_undo_row')
+                        break
                     r2 = c.backup()
                     if r2 != 'ok':
                         res.bump('backup_refused_' + r2)
